@@ -38,7 +38,8 @@ def _merge(a, b):
 
 def _replay_chunk(exe, lines, e, depth):
     """one process for the chunk; a crash or a hang is attributed to single requests by bisection"""
-    rc, out = vlib.sh([exe], input="\n".join(lines) + "\n", timeout=(60 if depth == 0 else 15) + 0.4 * len(lines), env=e)
+    rc, out = vlib.sh([exe], input="\n".join(lines) + "\n", timeout=(60 if depth == 0 else 15) + 0.4 * len(lines), env=e,
+                      drop_stderr=len(lines) > 1)
     last = [l for l in out.splitlines() if l.startswith("{")]
     if rc == 0 and last:
         return json.loads(last[-1])
@@ -124,6 +125,28 @@ def run(tier, replay):
         for v in rr["violations"]:
             # one finding per (kind, isotope, mode class): keep the key specific but stable
             ck.violation(v["key"], v["what"], {"request": v["key"].split(":", 1)[1]})
+    # ---- the gA routing with a dataset mounted for Mo100/g0 only (second evaluation of the rules)
+    rg = vlib.tlc("MCDbdRules", "MCDbdRules_ga.cfg", workers=1, timeout=900)
+    if rg.error:
+        raise vlib.InfraError(rg.error)
+    ck.tlc_stats(rg, "MCDbdRules(gA dataset mounted for Mo100 mode 21)")
+    if rg.violated:
+        ck.violation("model:ga:" + rg.violated, "DbdRules.tla (gA mounted): %s violated" % rg.violated, {"trace": rg.trace[-2:]})
+    else:
+        ggrid = [g for g in parse_verdicts(rg.out) if 21 <= g[2] <= 24]
+        gadir = os.path.join(vlib.workdir("c06ga"), "gadata")
+        rc_, out_ = vlib.sh(["python3", os.path.join(vlib.ROOT, "tools", "mk_ga_dataset.py"), gadir, "Mo100", "g0"], timeout=120)
+        if rc_ != 0:
+            raise vlib.InfraError("mk_ga_dataset failed: " + out_[-400:])
+        rr = run_replay(exe, [fmt(g) for g in ggrid], env={"BXDECAY0_DBD_GA_DATA_DIR": gadir})
+        if rr.get("crash"):
+            ck.violation("replay-crash:ga", "dbdrules_replay died on the gA rows (rc=%s): %s" % (rr["rc"], rr["out"][-500:]), None)
+        else:
+            ck.add("evaluations", rr["requests"])
+            ck.set("gA_rows_checked_with_dataset_mounted", rr["requests"])
+            ck.set("gA_rows_accepted", rr["accepted"])
+            for v in rr["violations"]:
+                ck.violation("ga-mounted:" + v["key"], v["what"], {"request": v["key"].split(":", 1)[1]})
     # ---- the compiled reference (modes 1..20, no window): ier must match RefAccept
     cos = c01.cosim_exe()
     refgrid = [g for g in grid if g[3] == "none" and 1 <= g[2] <= 20 and g[0] not in ("", ) and g[6] != 2 and g[1] >= 0]
@@ -158,7 +181,7 @@ def run(tier, replay):
                    "a request the library is asked to initialise")
     for g in (acc[:2] + rej[:2]):
         ck.sample({"iso": g[0], "level": g[1], "mode": g[2], "window": g[3], "library": g[4], "plumbing": g[5], "reference": g[6]})
-    ck.assumptions += ["gA dataset not mounted in this run (modes 21-24 must be refused); the mounted variant is exercised by C14/C09",
+    ck.assumptions += ["gA rules evaluated twice: no dataset (modes 21-24 refused everywhere) and a synthetic dataset mounted for Mo100/g0 only (accepted exactly there)",
                        "window classes: valid = (0, 5) MeV, inverted = (2, 1) MeV, beyond = (5, 6) MeV (above every Q value)",
                        "levels whose spin flag the reference leaves unassigned (Dy156 levels 12, 13) have no specified verdict"]
     return ck.finish()
